@@ -27,7 +27,7 @@ ASSUMPTIONS = [
     "a destination that would close an import cycle is an illegal request and is never asked",
     "module-level code of every module only defines and prints; importing a module twice is harmless",
 ]
-BUDGET = {"quick": (4800, 240), "thorough": (120000, 2700)}
+BUDGET = {"quick": (16000, 240), "thorough": (200000, 2700)}
 
 ELEMENT_STYLES = ["import_mod", "from_name", "from_name_as", "import_mod_as", "from_name"]
 BASE_STYLES = ["import_mod", "from_name", "import_mod_as", "from_name_as"]
